@@ -1,11 +1,19 @@
 import RgVerif.Lemmas.PrinterJson
 import RgVerif.Lemmas.PrinterRecord
+import RgVerif.Lemmas.PrinterStd
+import RgVerif.Lemmas.PrinterJsonRun
 /-
 C09 — printed lines and their coordinates are the input's own; JSON output is lossless.
 Only the theorems that decide the property live here (helper lemmas: `Lemmas/Printer*.lean`).
+All statements are about the model of `standard.rs` / `json.rs` / `jsont.rs` / `util.rs`
+(`Model/Printer.lean`, `Model/Json.lean`), for every configuration, every event stream the searcher may
+deliver and every matcher (`find : haystack → position → match`).
 -/
 namespace RgVerif.Props.C09
 open RgVerif RgVerif.Matcher RgVerif.Replace RgVerif.Json RgVerif.Printer RgVerif.PrinterSpec
+open RgVerif.Lemmas.PrinterIter RgVerif.Lemmas.PrinterStd RgVerif.Lemmas.PrinterJsonRun
+
+/-! ## Round trips -/
 
 /-- A number printed by `DecimalFormatter` reads back as the same number. -/
 theorem decimal_roundtrip (n : Nat) : parseNat (decimal n) = n :=
@@ -33,13 +41,200 @@ theorem record_parses (c : StdCfg) (r : Rec) (sepB pathSepB : Nat) (g : ParseGua
     parseRecord (shapeOf r sepB pathSepB) (printRecord c r) = some (r.path, r.lineNo, r.col, r.off, r.text) :=
   Lemmas.PrinterRecord.record_parses c r sepB pathSepB g
 
-/-- non-vacuity of `record_parses`: `src/a.rs:12:3:100:x:y\n` -/
+/-- non-vacuity of `record_parses`: `src:12:3:100:x:y\n` -/
 example : ParseGuard {} { path := some [115, 114, 99], lineNo := some 12, col := some 3, off := some 100, isCtx := false
                         , text := [120, 58, 121, 10] } 58 58 := by
   refine ⟨rfl, rfl, rfl, ?_⟩
   intro p hp
   injection hp with hp
   subst hp
+  decide
+
+/-! ## Standard printer -/
+
+/-- What `PreludeWriter` writes in front of a line is the record layout: path, line number, column, byte
+offset in this order, each followed by its separator (the path by the path terminator when one is set). -/
+theorem prelude_is_record_layout (lt : LineTerm) (c : StdCfg) (isCtx : Bool) (off : Nat) (ln col : Option Nat)
+    (line : Bytes) :
+    writePrelude c isCtx off ln col ++ writeLine lt line =
+      printRecord c { path := recPath c, lineNo := ln, col := if c.column then col else none
+                    , off := optIf c.byteOffset off, isCtx, text := completed lt line } :=
+  prelude_line_eq lt c isCtx off ln col line
+
+/-- "A missing final terminator is completed, nothing else altered". -/
+theorem completed_is_line (lt : LineTerm) (line : Bytes) :
+    ∃ suffix, completed lt line = line ++ suffix ∧
+      (suffix = [] ∧ line.getLast? = some lt.asByte ∨ suffix = lt.bytes ∧ line.getLast? ≠ some lt.asByte) := by
+  unfold completed
+  by_cases h : line.getLast? = some lt.asByte
+  · exact ⟨[], by simp [h], Or.inl ⟨rfl, h⟩⟩
+  · exact ⟨lt.bytes, by simp [h], Or.inr ⟨rfl, h⟩⟩
+
+/-- **Records are the event's own** (single-line mode, not `--vimgrep`): a matched line produces exactly one
+record; its text is the event's line (completed), its line number and byte offset are the event's. -/
+theorem matched_record_own (sc : SCfg) (c : StdCfg) (find : Oracle) (buf : Bytes) (rs re off : Nat) (ln : Option Nat)
+    (hml : sc.multiLine = false) (hpm : c.perMatch = false) :
+    ∃ r, eventRecords sc c find (.matched buf rs re off ln) = [r] ∧
+      r.text = completed sc.lt (slice buf rs re) ∧ r.lineNo = ln ∧ r.off = optIf c.byteOffset off ∧
+      r.path = recPath c ∧ r.isCtx = false := by
+  unfold eventRecords
+  simp only [hml, Bool.false_eq_true, ↓reduceIte]
+  unfold lineRecords
+  split
+  · exact ⟨_, rfl, rfl, rfl, rfl, rfl, rfl⟩
+  · simp only [hpm, Bool.false_eq_true, ↓reduceIte]
+    exact ⟨_, rfl, rfl, rfl, rfl, rfl, rfl⟩
+
+/-- **The column is the start of the first match**: with `--column` (not `--vimgrep`, single-line mode), if the
+matcher's first answer from the start of the line is `m` and it starts inside the line (or exactly at the end of
+a final line without terminator), the record of the line carries column `m.start - line start + 1`. -/
+theorem matched_record_column (sc : SCfg) (c : StdCfg) (find : Oracle) (buf : Bytes) (rs re off : Nat)
+    (ln : Option Nat) (m : Span) (hml : sc.multiLine = false) (hpm : c.perMatch = false) (hcol : c.column = true)
+    (hrs : rs ≤ (cutHaystack sc buf re).length)
+    (hf : find (cutHaystack sc buf re) rs = some m)
+    (hin : m.s < re ∨ (isAtUnterminatedEnd sc.lt (cutHaystack sc buf re) rs re = true ∧ m.s = re)) :
+    ∃ r, eventRecords sc c find (.matched buf rs re off ln) = [r] ∧ r.col = some (m.s - rs + 1) := by
+  obtain ⟨t, ht⟩ := findIterInContext_head sc find buf rs re m hrs hf hin
+  have hg : c.granular = true := by simp [StdCfg.granular, hcol]
+  unfold eventRecords
+  simp only [hml, Bool.false_eq_true, ↓reduceIte, eventSpans, hg, ht, shiftSpans, List.map_cons]
+  unfold lineRecords
+  simp only [hpm, Bool.false_eq_true, ↓reduceIte, hcol, optIf]
+  exact ⟨_, rfl, rfl⟩
+
+/-- The F6 regression in the model: `$` on the single unterminated line `abc` (matcher answers `[3,3)`) gives
+column 4. -/
+example :
+    eventRecords {} { column := true } (fun _ p => if p ≤ 3 then some ⟨3, 3⟩ else none)
+      (.matched [97, 98, 99] 0 3 0 (some 1)) =
+    [{ path := none, lineNo := some 1, col := some 4, off := none, isCtx := false, text := [97, 98, 99, 10] }] := by
+  decide
+
+/-- **C09, Standard printer, one event** (every path except the slow multi-line one, see
+`Lemmas.PrinterStd.fastPath`): the sink appends, after the search prelude when nothing was written yet in this
+search, exactly the layout of the event's records. -/
+theorem C09_standard_event (sc : SCfg) (c : StdCfg) (find : Oracle) (st : StdState) (ev : Event)
+    (ho : c.onlyMatching = false) (hf : fastPath sc c find ev = true) :
+    (stdEvent sc c find st ev).1.out = st.out ++ eventOutput sc c find st.count st.total ev :=
+  stdEvent_out sc c find st ev ho hf
+
+/-- **C09, Standard printer, whole stream**: the bytes printed for a search are the concatenation, over the
+events the sink consumed (in order), of each event's own records in the record layout; nothing else is printed
+except the search separator / heading before the first record and the context separator for a context break. -/
+theorem C09_standard (sc : SCfg) (c : StdCfg) (find : Oracle) (st : StdState) (evs : List Event)
+    (ho : c.onlyMatching = false) (hf : ∀ ev ∈ evs, fastPath sc c find ev = true) :
+    (stdEvents sc c find st evs).out =
+      st.out ++ (processed sc c find st evs).flatMap (fun p => eventOutput sc c find p.1.count p.1.total p.2) :=
+  stdEvents_out sc c find ho evs st hf
+
+/-- non-vacuity of the hypotheses of `C09_standard`: a match with `--column` in single-line mode is on the covered
+path and has a recorded match; so is a multi-line block without match granularity. -/
+example :
+    fastPath {} { column := true } (fun _ p => if p ≤ 1 then some ⟨1, 2⟩ else none)
+      (.matched [97, 98, 10, 99] 0 3 0 (some 1)) = true ∧
+    eventSpans {} { column := true } (fun _ p => if p ≤ 1 then some ⟨1, 2⟩ else none)
+      (.matched [97, 98, 10, 99] 0 3 0 (some 1)) = [⟨1, 2⟩] ∧
+    fastPath { multiLine := true } {} (fun _ _ => none) (.matched [97, 10, 98, 10] 0 4 0 (some 1)) = true := by
+  decide
+
+/-! ## JSON printer -/
+
+/-- **Sequencing**: per search, the messages are nothing at all, or one `begin`, then only match/context
+messages, then one `end`. -/
+theorem C09_json_sequence (sc : SCfg) (jc : JsonCfg) (find : Oracle) (evs : List Event) (bc : Nat)
+    (hp : (jsonSearch sc jc find evs bc).panicked = false) :
+    (jsonSearch sc jc find evs bc).msgs = [] ∨
+    ∃ mids stats, (jsonSearch sc jc find evs bc).msgs =
+        .begin (pathData jc.path) :: (mids ++ [.end (pathData jc.path) none stats]) ∧
+      ∀ m ∈ mids, Msg.isMid m = true :=
+  jsonSearch_shape sc jc find evs bc hp
+
+/-- **One event, one message**: a match/context event appends exactly the message built from it — its own
+line bytes, line number, absolute offset and the matches found inside it — and all these matches lie inside
+the line. -/
+theorem C09_json_event (sc : SCfg) (jc : JsonCfg) (find : Oracle) (st : JsonState) (ev : Event)
+    (hp : (jsonEvent sc jc find st ev).1.panicked = false) :
+    (jsonEvent sc jc find st ev).1.msgs =
+      (match msgOfEvent sc jc find ev with
+       | some m => (st.writeBegin jc).msgs ++ [m]
+       | none => st.msgs) ∧
+    InRange (eventBytes ev) (jsonSpans sc find ev) :=
+  jsonEvent_msgs sc jc find st ev hp
+
+/-- **Lossless**: decoding the `lines` object of an event's message gives the event's bytes, and decoding any
+submatch object gives exactly the sub-range `[start, end)` of these bytes: `line[sm.start..sm.end] = sm.text`. -/
+theorem C09_json (bytes : Bytes) (hb : ∀ x ∈ bytes, x < 256) (ms : List Span) (_hin : InRange bytes ms) :
+    decodeData (encodeData bytes) = some bytes ∧
+    ∀ sm ∈ ms.map (subOf bytes), decodeData sm.m = some (slice bytes sm.s sm.e) ∧ sm.s ≤ sm.e ∧ sm.e ≤ bytes.length := by
+  refine ⟨data_roundtrip bytes hb, ?_⟩
+  intro sm hsm
+  obtain ⟨m, hm, rfl⟩ := List.mem_map.mp hsm
+  exact ⟨subOf_decodes bytes hb m, (_hin m hm).1, (_hin m hm).2⟩
+
+/-- Full statement "the JSON printer reports every delivered event (never aborts)", for every well-formed stream
+and every matcher that is sane on each haystack it is shown. -/
+def C09_json_total_full : Prop :=
+  ∀ (sc : SCfg) (jc : JsonCfg) (find : Oracle) (evs : List Event) (bc : Nat),
+    (∀ ev ∈ evs, EventOk sc find ev) → (jsonSearch sc jc find evs bc).panicked = false
+
+/-- The matcher of the witness: `(?s)a.{129}\z|a` seen through `find_at(hay, 0)` — on a haystack of exactly 130
+bytes the first alternative matches all of it, otherwise only the `a`. -/
+def lookaheadCutMatcher : Oracle :=
+  fun hay p => if p == 0 then (if hay.length == 130 then some ⟨0, 130⟩ else some ⟨0, 1⟩) else none
+
+theorem lookaheadCutMatcher_sane (hay : Bytes) (h : 1 ≤ hay.length) : Sane (lookaheadCutMatcher hay) hay.length := by
+  constructor <;> intro p m hm <;> unfold lookaheadCutMatcher at hm <;> split at hm
+  all_goals first
+    | (split at hm <;> injection hm with hm <;> subst hm <;> simp_all <;> omega)
+    | simp at hm
+
+/-- FALSE on the current tree (finding F18): in multi-line mode the block `a\n` of a buffer with more than 128
+further bytes is re-searched in a haystack cut 128 bytes after the block; the matcher's answer there ends
+beyond the block and `SubMatches::new` slices out of range. -/
+theorem C09_json_total_full_fails : ¬ C09_json_total_full := by
+  intro h
+  have hlen : (97 :: 10 :: List.replicate 300 98).length = 302 := by
+    simp only [List.length_cons, List.length_replicate]
+  have hsl : (slice (97 :: 10 :: List.replicate 300 98) 0 2).length = 2 := by
+    rw [slice_length _ _ _ (by omega)]
+  generalize (97 :: 10 :: List.replicate 300 98) = buf at hlen hsl h
+  have hcut : (cutHaystack { multiLine := true } buf 2).length = 130 := by
+    simp only [cutHaystack, ↓reduceIte, hlen, maxLookAhead]
+    have : (302 - 2 ≥ 128) := by omega
+    simp only [this, ↓reduceIte, List.length_take, hlen]
+    omega
+  have hfind : findIterInContext { multiLine := true } lookaheadCutMatcher buf 0 2 = [⟨0, 130⟩] := by
+    rw [findIterInContext_eq, hcut, show (130 : Nat) + 2 = 130 + 1 + 1 from rfl, iterGo_succ]
+    have hstep : ∀ atEnd, step 2 atEnd [] ⟨0, 130⟩ = ([⟨0, 130⟩], true) := by
+      intro atEnd; simp [step, beyondRange]
+    simp [lookaheadCutMatcher, hcut, hstep]
+    apply iterGo_find_none
+    simp [lookaheadCutMatcher]
+  have := h { multiLine := true } {} lookaheadCutMatcher [.matched buf 0 2 0 (some 1)] 302 (by
+      intro ev hev
+      simp only [List.mem_singleton] at hev
+      subst hev
+      refine ⟨by omega, by omega, ?_⟩
+      apply lookaheadCutMatcher_sane
+      omega)
+  revert this
+  simp [jsonSearch, jsonBegin, jsonEvents, jsonEvent, jsonMatched, recordMatchesJson, hfind, shiftSpans,
+    subMatches, hsl, jsonFinish, JsonState.writeBegin]
+
+/-- **No abort in single-line mode**: there the haystack ends with the line, so a sane matcher's matches can
+always be sliced out of the line. -/
+theorem C09_json_total_partial (sc : SCfg) (jc : JsonCfg) (find : Oracle) (hml : sc.multiLine = false)
+    (evs : List Event) (bc : Nat) (hall : ∀ ev ∈ evs, EventOk sc find ev) :
+    (jsonSearch sc jc find evs bc).panicked = false :=
+  jsonSearch_no_panic sc jc find hml evs bc hall
+
+/-- non-vacuity of the guard: the F6 witness (`$` on `abc`) is a well-formed single-line event with a sane
+matcher, and its message carries the submatch `[3,3)`. -/
+example :
+    (jsonSearch {} {} (fun _ p => if p ≤ 3 then some ⟨3, 3⟩ else none)
+      [.matched [97, 98, 99] 0 3 0 (some 1)] 3).msgs =
+    [.begin none, .matched none (.text [97, 98, 99]) (some 1) 0 [{ m := .text [], s := 3, e := 3 }],
+     .end none none { searches := 1, searchesWithMatch := 1, bytesSearched := 3, matchedLines := 1, matchCount := 1 }] := by
   decide
 
 end RgVerif.Props.C09
